@@ -154,8 +154,12 @@ class Spy:
     """records protocol operations performed on spy containers"""
     def __init__(self):
         self.log = []
+        self.in_repr = 0       # > 0 while a spy container's own repr() runs (repr may iterate freely)
+        self.reprs = 0         # number of outermost repr() calls on spy containers
 
     def rec(self, kind, obj, extra=None):
+        if self.in_repr:
+            return
         self.log.append([kind, type(obj).__mro__[1].__name__ if getattr(type(obj), '_spy', False) else type(obj).__name__,
                          getattr(obj, '_label', None)] + ([extra] if extra is not None else []))
 
@@ -177,6 +181,16 @@ def make_spy_classes(spy):
 
     def mk(base, name, mapping=False, sized=True, indexable=True, iterable=True):
         ns = {'_spy': True, '_label': None}
+
+        def __repr__(self):
+            if not spy.in_repr:
+                spy.reprs += 1
+            spy.in_repr += 1
+            try:
+                return base.__repr__(self)
+            finally:
+                spy.in_repr -= 1
+        ns['__repr__'] = __repr__
         if sized:
             def __len__(self):
                 spy.rec('len', self)
